@@ -974,6 +974,11 @@ def obj_key(p, o):
     if p.ty in (lay.TSINT, lay.TS8):
         v = sum(b << (8 * i) for i, b in enumerate(o))
         return v - (1 << (8 * len(o))) if v >> (8 * len(o) - 1) else v
+    if p.ty == lay.TFLT:
+        # IEEE-754 sign-magnitude (the generators produce no NaN): +0 and -0 have the same key
+        v = sum(b << (8 * i) for i, b in enumerate(o))
+        h = 1 << (8 * len(o) - 1)
+        return -(v - h) if v >= h else v
     return tuple(o)
 
 
